@@ -83,7 +83,7 @@ func Add(t *tspb.Timestamp, d *durpb.Duration) *tspb.Timestamp {
 	if t2.Nanos >= second {
 		t2.Nanos -= second
 		t2.Seconds++
-	} else if t2.Nanos <= -second {
+	} else if t2.Nanos < 0 {
 		t2.Nanos += second
 		t2.Seconds--
 	}
